@@ -367,6 +367,10 @@ impl<'tx> TxInner<'tx> {
                     file.seek(SeekFrom::Start(self.db.inner.pagesize * page_id))?;
                     file.write_all(buf)?;
                 }
+                // The data pages must be durable before the meta page that points to them is written,
+                // otherwise a power failure can leave a valid meta page on top of missing data.
+                file.flush()?;
+                file.sync_all()?;
             }
         }
         if self.db.inner.flags.strict_mode {
